@@ -153,6 +153,13 @@ def run(c):
     model = c.model_exe("m_names")
     impl = c.cargo_build("names-run")
     if not impl: return
+    impl = os.environ.get("VERIF_NAMES_RUN", impl)      # replay against a patched copy of the generators
+    import shutil, atexit               # pin the binary for this run (concurrent cargo builds swap it)
+    pinned = os.path.join(VERIF, ".build", "run", f"names-run-C13-{os.getpid()}")
+    os.makedirs(os.path.dirname(pinned), exist_ok=True)
+    shutil.copy2(impl, pinned)
+    atexit.register(lambda: os.path.exists(pinned) and os.remove(pinned))
+    impl = pinned
     cases = load_cases(c)
     reqs, meta = [], []
     for cid, klass, inp, world, src, origin, only in cases:
@@ -364,6 +371,40 @@ def run(c):
                                                 "spec_says": "accept" if expect else "reject", "wit": m[4]})
     if stE["mismatches"]:
         c.broken.append(("corr:spec-vs-component-encoder", json.dumps(stE["first_mismatches"][:3])))
+
+    # ---------------------------------------------------------------- F: "silently ignored", asked of the encoder itself
+    # an export is ignored iff removing it leaves the encoded component byte-identical.  Asked for every
+    # case in which the spec flags an export, and for a sample of the cases in which it flags none.
+    stF = c.corr.setdefault("ignored-exports-vs-component-encoder", {"cases": 0, "mismatches": 0, "first_mismatches": []})
+    flagged, clean = [], []
+    for j, (i, a) in enumerate(zip(enc_idx, eans)):
+        if not a.startswith("ok"): continue
+        bad = [w for k_, w in parsed[i].get("fails", []) if "silently ignored export" in w]
+        (flagged if bad else clean).append(j)
+    c.rng.shuffle(clean)
+    pick = flagged[: (60 if c.tier == "quick" else 600)] + clean[: (40 if c.tier == "quick" else 400)]
+    ians = parallel_lines([impl, "encode"], ["ignored " + enc_req[j] for j in pick], workers=14, timeout=900)
+    confirmed = 0
+    for j, a in zip(pick, ians):
+        i = enc_idx[j]; d, m = parsed[i], meta[i]
+        stF["cases"] += 1; c.evaluations += 1
+        if not a.startswith("ok"):
+            stF["mismatches"] += 1; stF["first_mismatches"].append({"case": m[0], "backend": m[2], "answer": a[:120]}); continue
+        ign = {unhx(h) for h in a.split(" ")[1:]} - {"cabi_realloc"}    # (unused when nothing needs memory)
+        want = set()
+        for k_, w in d.get("fails", []):
+            if "silently ignored export" in w:
+                mm = re.search(r"declared export '((?:[^'\\]|\\.)*)'", w)
+                if mm: want.add(mm.group(1))
+        if ign != want:
+            stF["mismatches"] += 1
+            if len(stF["first_mismatches"]) < 5:
+                stF["first_mismatches"].append({"case": m[0], "backend": m[2], "variant": m[3], "encoder_ignores": sorted(ign), "spec_flags": sorted(want), "wit": m[4]})
+        elif want:
+            confirmed += 1
+    c.cov["silently_ignored_confirmed_by_encoder"] = confirmed
+    if stF["mismatches"]:
+        c.broken.append(("corr:ignored-exports-vs-component-encoder", json.dumps(stF["first_mismatches"][:3])))
 
     for d, m in list(zip(parsed, meta)):
         if d.get("status") == "ok" and d.get("tokens"):
